@@ -654,3 +654,113 @@ def oracleC07 (outN : Node) (diags : List String) : Verdict :=
   | none => .ok
 
 end VueJsx
+
+/-! ### C06: every generated name is bound, in scope, initialised, and used -/
+namespace VueJsx
+
+def genBindOf (n : Node) : Option String :=
+  match n with
+  | .mk .ident (_ :: b :: _) _ => if isGenBind b then some b else none
+  | _ => none
+
+/-- generated bindings declared directly by a statement / module item: (bind, isLexical(let/const)) -/
+def declaredBy (s : Node) : List (String × Bool) :=
+  match s with
+  | .mk .importDecl _ (.mk .list _ specs :: _) =>
+    specs.filterMap fun sp =>
+      match sp with
+      | .mk .importSpec _ (l :: _) => (genBindOf l).map (·, false)
+      | .mk .importDefault _ [l] => (genBindOf l).map (·, false)
+      | _ => none
+  | .mk .fnDecl _ (id :: _) => ((genBindOf id).map (·, false)).toList
+  | .mk .varDecl _ [.mk .list _ decls] =>
+    decls.filterMap fun d => match d with | .mk .declarator _ (id :: _) => (genBindOf id).map (·, true) | _ => none
+  | .mk (.other "ExportDeclaration") _ [d] =>
+    match d with
+    | .mk .varDecl _ [.mk .list _ decls] =>
+      decls.filterMap fun d => match d with | .mk .declarator _ (id :: _) => (genBindOf id).map (·, true) | _ => none
+    | _ => []
+  | _ => []
+
+structure ScopeRes where
+  errors : List (String × String) := []
+  uses : List String := []
+  deriving Inhabited
+
+def ScopeRes.merge (a b : ScopeRes) : ScopeRes := { errors := a.errors ++ b.errors, uses := a.uses ++ b.uses }
+
+/-- uses of generated identifiers in `n` that execute when `n` is evaluated (not inside a nested function/arrow) -/
+partial def eagerUses (n : Node) : List String :=
+  match n with
+  | .mk .arrow _ _ => []
+  | .mk .fnExpr _ _ => []
+  | .mk .fnDecl _ _ => []
+  | .mk .methodProp _ _ => []
+  | .mk .getterProp _ _ => []
+  | .mk .setterProp _ _ => []
+  | .mk .declarator _ [_, init] => eagerUses init
+  | .mk .ident (_ :: b :: _) [] => if isGenBind b then [b] else []
+  | .mk _ _ ks => ks.flatMap eagerUses
+
+mutual
+partial def scopeWalk (n : Node) (visible : List String) : ScopeRes :=
+  match n with
+  | .mk .ident (nm :: b :: _) [] =>
+    if isGenBind b then
+      { uses := [b], errors := if visible.contains b then [] else [("unbound-generated-name", s!"{nm} is used where no declaration of it is in scope")] }
+    else {}
+  | .mk .stmts _ items => scopeList items visible
+  | .mk .module _ (.mk .list _ items :: _) => scopeList items visible
+  | .mk .importDecl _ _ => {}
+  | .mk .fnDecl _ (_ :: .mk .list _ params :: rest) => scopeFn params rest visible
+  | .mk .fnExpr _ (_ :: .mk .list _ params :: rest) => scopeFn params rest visible
+  | .mk .arrow _ (.mk .list _ params :: rest) => scopeFn params rest visible
+  | .mk .methodProp _ (k :: .mk .list _ params :: rest) => (scopeWalk k visible).merge (scopeFn params rest visible)
+  | .mk .declarator _ [id, init] =>
+    -- the binding identifier is a declaration, not a use; its type annotation / pattern defaults are walked
+    (match id with | .mk .ident _ ks => scopeWalkL ks visible | p => scopeWalk p visible).merge (scopeWalk init visible)
+  | .mk _ _ ks => scopeWalkL ks visible
+partial def scopeWalkL (ns : List Node) (visible : List String) : ScopeRes :=
+  ns.foldl (fun (acc : ScopeRes) n => acc.merge (scopeWalk n visible)) {}
+/-- a statement list: its own lexical declarations are visible in all of it, but must precede every eager use -/
+partial def scopeList (items : List Node) (visible : List String) : ScopeRes :=
+  let decls := items.flatMap declaredBy
+  let vis := visible ++ decls.map (·.1)
+  let inner := scopeWalkL items vis
+  let rec order (its : List Node) (pendingLex : List String) : List (String × String) :=
+    match its with
+    | [] => []
+    | it :: rest =>
+      let here := (declaredBy it).filter (·.2) |>.map (·.1)
+      let later := pendingLex.filter (fun b => !here.contains b)
+      let bad := (eagerUses it).filter (fun b => later.contains b)
+      (bad.map fun b => ("read-before-declaration", s!"generated binding {b} is read by a statement that runs before its let/const declaration")) ++ order rest later
+  { inner with errors := inner.errors ++ order items ((decls.filter (·.2)).map (·.1)) }
+/-- a function or arrow: parameters are visible in the body, but the body's declarations are NOT visible in the
+    parameters' default values -/
+partial def scopeFn (params : List Node) (rest : List Node) (visible : List String) : ScopeRes :=
+  let paramBinds := (params.flatMap fun p => collect (fun x => match x with | .mk .ident _ [_] => true | _ => false) p).filterMap genBindOf
+  let pres : ScopeRes := params.foldl (fun (acc : ScopeRes) p =>
+    match p with
+    | .mk .ident _ ks => acc.merge (scopeWalkL ks visible)
+    | .mk .param _ [d, .mk .ident _ ks] => acc.merge ((scopeWalk d visible).merge (scopeWalkL ks visible))
+    | p => acc.merge (scopeWalk p visible)) {}
+  pres.merge (scopeWalkL rest (visible ++ paramBinds))
+end
+
+def oracleC06 (o : Opts) (inN outN : Node) : Verdict :=
+  let res := scopeWalk outN []
+  match res.errors.head? with
+  | some (k, d) => .fail k d
+  | none =>
+    -- a repeated non-mergeable attribute is dropped after its value was lowered (outside the quantifier)
+    if o.mergeProps && anyDroppedDuplicate inN then .ok else
+    -- conversely, every helper the transform imports or declares is used
+    let allDecls := (collect (fun _ => true) outN).flatMap declaredBy
+    match allDecls.find? (fun d => !res.uses.contains d.1) with
+    | some (b, _) =>
+      let nm := ((collect (fun x => genBindOf x == some b) outN).head?).map identName |>.getD b
+      .fail "unused-generated-binding" s!"{nm} is imported or declared but never used"
+    | none => .ok
+
+end VueJsx
